@@ -32,6 +32,7 @@ let ev_token (e : ev) : string =
 let obs_token (o : obs) : string =
   match o with
   | ONone -> "."
+  | OStuck -> "stuck"
   | OSynced b -> if b then "blocked" else "ok"
   | OEv (b, es) -> (if b then "BT=" else "T=") ^ String.concat ";" (List.map ev_token es)
 
@@ -49,6 +50,7 @@ let parse_obs (t : string) : obs =
     else List.map (fun x -> match parse_ev x with Some e -> e | None -> raise Bad) (split ';' s) in
   let n = String.length t in
   if t = "." then ONone
+  else if t = "stuck" then OStuck
   else if t = "ok" then OSynced false
   else if t = "blocked" then OSynced true
   else if n >= 2 && String.sub t 0 2 = "T=" then OEv (false, evs (String.sub t 2 (n - 2)))
